@@ -15,17 +15,26 @@ import (
 // marker, followed by tree size and nonce; the parent coinbase under the
 // parent header's merkle root through a branch of P siblings.
 func zzC10proof(blockHash common.Uint256, L, P int, nonce uint32, chainID int, slotXor int) *AuxPow {
+	return zzC10proofAt(blockHash, L, P, nonce, GetExpectedIndex(nonce, chainID, L)^slotXor, 0)
+}
+
+// zzC10proofAt: the same with an explicit aux index and filler bytes between
+// marker and root.
+func zzC10proofAt(blockHash common.Uint256, L, P int, nonce uint32, index int, filler int) *AuxPow {
 	ap := &AuxPow{}
 	for i := 0; i < L; i++ {
 		ap.AuxMerkleBranch = append(ap.AuxMerkleBranch, common.Uint256{0x77, byte(i)})
 	}
-	// slotXor != 0: the miner put the chain at a slot other than the one the
-	// nonce and chain id prescribe (everything else consistent)
-	ap.AuxMerkleIndex = GetExpectedIndex(nonce, chainID, L) ^ slotXor
+	// an index other than the one the nonce and chain id prescribe: the miner
+	// put the chain elsewhere (everything else consistent)
+	ap.AuxMerkleIndex = index
 	rev, _ := common.Uint256FromBytes(common.BytesReverse(blockHash.Bytes()))
 	root := GetMerkleRoot(*rev, ap.AuxMerkleBranch, ap.AuxMerkleIndex)
 	script := []byte{0x03, 0x01, 0x02, 0x03} // height push, as in real coinbases
 	script = append(script, pchMergedMiningHeader...)
+	for i := 0; i < filler; i++ {
+		script = append(script, 0x11)
+	}
 	script = append(script, common.BytesReverse(root.Bytes())...)
 	var tail [8]byte
 	binary.LittleEndian.PutUint32(tail[:4], 1<<uint(L))
@@ -55,7 +64,20 @@ func ZZ_C10_commit() {
 	ap := zzC10proof(h, L, P, nonce, AuxPowChainID, 0)
 	nd.Assert(ap.Check(&h, AuxPowChainID), "proof_built_for_this_block_verifies")
 	nd.Reach("built")
-	switch nd.Choose("attack", 6) {
+	switch nd.Choose("attack", 8) {
+	case 6: // something between the marker and the root
+		bad := zzC10proofAt(h, L, P, nonce, GetExpectedIndex(nonce, AuxPowChainID, L), nd.Choose("fillerBytes", 3)+1)
+		nd.Assert(!bad.Check(&h, AuxPowChainID), "root_not_immediately_after_the_marker_is_rejected")
+	case 7: // an index outside the tree: congruent to the prescribed slot, or -1 (decoded 0xffffffff)
+		idx := -1
+		if nd.Choose("outsideIndexKind", 2) == 1 {
+			idx = GetExpectedIndex(nonce, AuxPowChainID, L) + (nd.Choose("wraps", 3)+1)<<uint(L)
+		}
+		bad := zzC10proofAt(h, L, P, nonce, idx, 0)
+		nd.Assert(!bad.Check(&h, AuxPowChainID), "aux_index_outside_the_tree_is_rejected")
+		var other common.Uint256
+		other[0] = 0x99
+		nd.Assert(!bad.Check(&other, AuxPowChainID), "aux_index_outside_the_tree_is_rejected_for_other_blocks_too")
 	case 5: // consistent proof, but at a slot the nonce and chain id do not prescribe
 		if L > 0 {
 			x := nd.Choose("slotXor", (1<<uint(L))-1) + 1
